@@ -182,7 +182,7 @@ func (C15) Run(c core.Case, ctx *core.Ctx) []core.Violation {
 				continue
 			}
 			if !res.Returned {
-				ctx.St.Inc("cross_c06_panic_or_divergence")
+				add(res.PanicClass, res.PanicSite, fmt.Sprintf("op %d did not return: %s", oi, trunc(res.PanicDetail)))
 				continue
 			}
 			tgt := w.Ops[oi].Target
@@ -200,7 +200,7 @@ func (C15) Run(c core.Case, ctx *core.Ctx) []core.Violation {
 						seen[rec.Party] = true
 						builtRuns[rec.Party]++
 					}
-					if rec.Err != nil && firstErr == nil {
+					if rec.Failed() && firstErr == nil {
 						firstErr = rec
 					}
 				}
@@ -219,8 +219,8 @@ func (C15) Run(c core.Case, ctx *core.Ctx) []core.Violation {
 			}
 			if firstErr != nil {
 				ctx.St.Inc("c15_callback_error")
-				if res.Err != error(firstErr.Err) {
-					add("built-callback-error-not-returned", "Call", fmt.Sprintf("op %d: the callback of built party %d returned %q, Call returned %s", oi, firstErr.Party, firstErr.Err.Error(), errStr(res.Err)))
+				if res.Err != firstErr.ErrValue() {
+					add("built-callback-error-not-returned", "Call", fmt.Sprintf("op %d: the callback of built party %d returned %q, Call returned %s", oi, firstErr.Party, firstErr.ErrValue().Error(), errStr(res.Err)))
 				}
 			}
 			if res.Err == nil && texec != nil && w.Parties[tgt].InForm == world.FormBuilt {
